@@ -261,6 +261,11 @@ func (p *poller) readWriteLoop() {
 					if ev.Events&epollEventsWrite != 0 {
 						if c.onConnected == nil {
 							_ = c.flush()
+							if isOneshot && ev.Events&epollEventsRead == 0 {
+								// the one-shot event has been consumed, re-arm it;
+								// else the data left would never be flushed.
+								c.ResetPollerEvent()
+							}
 						} else {
 							c.onConnected(c, nil)
 							c.onConnected = nil
@@ -507,11 +512,17 @@ func (c *Conn) ResetPollerEvent() {
 	p := c.p
 	g := p.g
 	fd := c.fd
-	if g.isOneshot && !c.closed {
-		if len(c.writeList) == 0 {
-			_ = p.resetRead(fd)
-		} else {
-			_ = p.modWrite(fd)
+	if g.isOneshot {
+		// choose the events under the lock: a concurrent Write must not see
+		// its write event overwritten by a stale read-only re-arm.
+		c.mux.Lock()
+		if !c.closed {
+			if len(c.writeList) == 0 {
+				_ = p.resetRead(fd)
+			} else {
+				_ = p.modWrite(fd)
+			}
 		}
+		c.mux.Unlock()
 	}
 }
